@@ -117,6 +117,13 @@ def pct(s):
     return unquote_to_bytes(s)
 
 
+def form(s):
+    """the form reading of a query key / value (application/x-www-form-urlencoded, what servers and
+    urllib.parse.parse_qsl apply to a query): a raw '+' is a space, '%2B' is a plus sign.  Lean:
+    Canonicalize.formStr (split at the raw '+', percent-decode the pieces, join with 0x20)"""
+    return b" ".join(unquote_to_bytes(x) for x in s.split("+"))
+
+
 def host_key(h):
     """the host up to letter case and IDNA spelling: label by label the ASCII-compatible (ACE)
     spelling, lower-cased (ToASCII of the reference encoder; Lean: hostKey ace).  The reading
@@ -148,14 +155,19 @@ def view(url, strip_fragment):
     port = r.port
     if port is not None and DEFAULT_PORT.get(r.scheme) == port:
         port = None
-    q = []
+    # the query under both readings of a key / value: RFC 3986 percent-decoding ('+' is a plus sign) and
+    # form decoding ('+' is a space): neither reading may change (FX-C01-6e09416: rewriting '%2B' into '+'
+    # or '+' into '%2B' keeps the first and breaks the second)
+    q, qf = [], []
     if r.query:
         for item in r.query.split("&"):
             if "=" in item:
                 k, v = item.split("=", 1)
                 q.append((pct(k), pct(v)))
+                qf.append((form(k), form(v)))
             else:
                 q.append((pct(item), None))
+                qf.append((form(item), None))
     return {
         "scheme": r.scheme,
         "user": pct(r.username or ""),
@@ -164,5 +176,6 @@ def view(url, strip_fragment):
         "port": port,
         "path": resolve_segments(r.path),
         "query": q,
+        "query (form reading: '+' is a space, %2B a plus sign)": qf,
         "fragment": None if strip_fragment else pct(r.fragment),
     }
